@@ -75,7 +75,7 @@ def run_case(prop, tier, seed, i):
             else:
                 payloads.append((-1, tuple(rand_shape(r) for _ in range(r.randrange(0, 3))),
                                  dict((kk, rand_shape(r)) for kk in r.sample(['k1', 'k2', 'zz'], r.randrange(1, 3)))))
-    cfg = {'cut_transfers': mode == 'random' and r.random() < 0.4, 'n': r.choice([2, 3]), 'batch': batch, 'use_batch': r.random() < 0.5, 'journal': r.choice(['memory', 'file']),
+    cfg = {'cut_transfers': mode == 'random' and r.random() < 0.4, 'bursts': mode == 'random' and r.random() < 0.5, 'n': r.choice([2, 3]), 'batch': batch, 'use_batch': r.random() < 0.5, 'journal': r.choice(['memory', 'file']),
            'steps': 0, 'quiet': False, 'chunk': 65536, 'liveness': True, 'trace_len': 120, 'ext': ['args']}
     sim = Sim(cfg, rs)
     am = X.ArgsMonitor(sim.mon)
@@ -94,15 +94,35 @@ def run_case(prop, tier, seed, i):
         if not wait(lambda: any(p.obj._isLeader() for p in sim.live()) and sim.mon.converged_basic(), 400):
             res['inconclusive'] = 'no leader'
         else:
-            for (size, args, kwargs) in payloads:
+            burst_left = 0
+            waiting = []
+            for pi, (size, args, kwargs) in enumerate(payloads):
                 p = r.choice(sim.live())
                 before = sim.uid
                 sim.one_step(('S', p.key, 'kv', 'big', ('$UID',) + tuple(args), kwargs))
                 sub = sim.subs.get(100000 + sim.uid) if sim.uid > before else None
                 if sub is None:
                     continue
+                if mode == 'random' and cfg.get('bursts'):
+                    # several commands submitted back to back (between two ticks): they travel and are applied together
+                    if burst_left == 0 and r.random() < 0.5:
+                        burst_left = r.randrange(1, 4)
+                    if burst_left > 0 and pi != len(payloads) - 1:
+                        burst_left -= 1
+                        waiting.append((size, sub))
+                        res['obs']['commands_in_bursts'] += 1
+                        continue
                 if mode == 'random' and cfg.get('cut_transfers') and r.random() < 0.5:
                     cut_a_transfer(sim, r, res)
+                for (wsize, wsub) in waiting:
+                    if not wait(lambda: bool(wsub['cbs']), 3000):
+                        raise Violation('C11', 'not_replicated', 'command with argument size %r (batch %d), submitted in a burst, got no callback on a '
+                                        'healthy network' % (wsize, batch), batch=batch, near_multiple=False, burst=True)
+                    if wsub['cbs'][0][2] != 0:
+                        raise Violation('C11', 'not_success', 'command with argument size %r (batch %d) reported %r on a healthy network'
+                                        % (wsize, batch, wsub['cbs'][0][2]), batch=batch)
+                    res['obs']['commands'] += 1
+                waiting = []
                 rounds = 60 + (len(_approx(args)) // max(batch, 1)) * 2 if batch >= 7 else 400
                 if not wait(lambda: bool(sub['cbs']), min(rounds, 3000)):
                     raise Violation('C11', 'not_replicated', 'command with argument size %r (batch %d) got no callback on a healthy network '
